@@ -28,6 +28,10 @@ type C16Conn struct {
 	HookFailCtx bool `json:"hook_fail_ctx,omitempty"`
 	// IdleMs: after connecting the client stays silent this long before it does anything (old connections)
 	IdleMs int `json:"idle_ms,omitempty"`
+	// Hello (TLS listener): "" the client completes the handshake | "silent" | "partial" | "garbage": it never does,
+	// and stays connected until the server hangs up: no hook may run for it, and Shutdown must not wait for it
+	// beyond the grace period
+	Hello string `json:"hello,omitempty"`
 }
 
 type C16Sc struct {
@@ -43,6 +47,8 @@ type C16Sc struct {
 	// ServeYields: the goroutine that calls Serve dallies this many scheduling points first, so that Shutdown may
 	// begin, or have returned, before Serve starts: Serve must then return the shutdown error without serving anybody
 	ServeYields int `json:"serve_yields,omitempty"`
+	// TLS: the listener hands out (simulated) TLS connections
+	TLS bool `json:"tls,omitempty"`
 }
 
 var c16Toks = []string{"ok", "ok", "y2,ok", "sl100,ok", "sL100,ok", "sl1000,ok", "sL1000,ok", "sl5000,ok", "sL5000,ok", "sl10000,cx,ok", "sL10000,ok", "et", "ps", "sl2000,et"}
@@ -68,6 +74,14 @@ func genC16(g *simrt.Tape, tier string) any {
 	sc.ShutdownMs = []int{0, 0, 1, 50, 100, 500, 1000, 2000, 6000, 10000, 13000, 32000, 62000}[g.Draw(13)]
 	sc.ShutdownYields = g.Draw(12)
 	sc.Second = g.Draw(5) == 0
+	if g.Draw(4) == 0 {
+		sc.TLS = true
+		for i := range sc.Conns {
+			if g.Draw(3) == 0 {
+				sc.Conns[i].Hello = []string{"silent", "partial", "garbage"}[g.Draw(3)]
+			}
+		}
+	}
 	sc.NoHooks = g.Draw(6) == 0
 	if g.Draw(6) == 0 {
 		sc.ServeYields = 1 + g.Draw(40)
@@ -132,6 +146,7 @@ func execC16(x *X, scAny any) {
 		}
 	}
 	w.serveYields = sc.ServeYields
+	w.tls = sc.TLS
 	w.startServerWith(func(string) simnet.EP { return simnet.EP{Chunk: sc.Chunk, Capacity: sc.Capacity} }, sc.AcceptLatePM, func(srv *kmipserver.Server) {
 		if sc.NoHooks {
 			return
@@ -184,6 +199,28 @@ func execC16(x *X, scAny any) {
 			}
 			cl.conn = conn
 			cl.connected = true
+			if sc.TLS && cs.Hello == "" {
+				_, _ = conn.Write([]byte(simnet.ClientHello))
+			}
+			if sc.TLS && cs.Hello != "" {
+				s.Fault("tls-peer-" + cs.Hello)
+				switch cs.Hello {
+				case "partial":
+					_, _ = conn.Write([]byte(simnet.ClientHello[:3]))
+				case "garbage":
+					_, _ = conn.Write([]byte("\x16\x03\x01 not a hello"))
+				}
+				buf := make([]byte, 64)
+				for {
+					if _, err := conn.Read(buf); err != nil {
+						break
+					}
+				}
+				cl.closed = true
+				cl.closedAt = s.Now()
+				_ = conn.Close()
+				return
+			}
 			if cs.IdleMs > 0 {
 				s.Sleep(time.Duration(cs.IdleMs) * time.Millisecond)
 			}
@@ -464,6 +501,17 @@ func c16Floor(tier string) []*C16Sc {
 					if ph == "no-read" || ph == "no-read-2" || ph == "pipeline" {
 						out = append(out, &C16Sc{Conns: []C16Conn{{Phase: ph, Tok: tok, HookFail: hf}, {Phase: "request", Tok: "ok", DelayMs: ms}}, ShutdownMs: 500, Capacity: 16})
 					}
+				}
+			}
+		}
+	}
+	// a TLS listener: peers that never complete the handshake next to one with a request in flight, Shutdown at
+	// several instants, with and without hooks
+	for _, hello := range []string{"silent", "partial", "garbage"} {
+		for _, tok := range []string{"ok", "sl1000,ok", "sL5000,ok"} {
+			for _, ms := range []int{0, 100, 5000} {
+				for _, nh := range []bool{false, true} {
+					out = append(out, &C16Sc{TLS: true, NoHooks: nh, Conns: []C16Conn{{Phase: "idle", Hello: hello}, {Phase: "request", Tok: tok}, {Phase: "idle", Hello: hello, DelayMs: 50}}, ShutdownMs: ms})
 				}
 			}
 		}
